@@ -79,6 +79,8 @@ def script_entry(draw, p):
     if special and chance(draw, special, "s2"):
         kind = draw(st.sampled_from(p.get("special_kinds", ["abort", "kbd", "sysexit", "cancel", "rexh", "copen"])))
     e = {"kind": kind}
+    if kind == "abort" and draw(st.booleans()):
+        e["alias"] = True  # raised under the library's other exported name, redress.AbortRetry
     if deadline_aware and chance(draw, 0.25, "s3"):
         e["until"] = draw(st.sampled_from([-2, -1, 0, 1, 2]))
         e["dur"] = 0
